@@ -608,14 +608,21 @@ pub fn prop(c: &Case) -> Verdict {
         }
         Ok(_) => {
             if let Some(t) = fsck_bad {
+                // git's ref store refuses to put anything but a commit below refs/heads/ ("trying to write non-commit
+                // object to branch"); gix writes what the refspec says
+                if t.split(" / ").all(|l| l.contains("refs/heads/") && l.contains("not a commit")) {
+                    return Verdict::fail("branch-points-to-non-commit", t);
+                }
                 return Verdict::fail(format!("fsck-{kind}"), t.replace('\n', " "));
             }
             if git_fatal {
                 // git refuses the whole fetch (e.g. into a checked-out branch, conflicting destinations)
                 let cls = if gerr.contains("refusing to fetch into") {
                     // gix must at least leave that branch alone
+                    // (git refuses even when the checked-out branch is unborn; gix, like git's own
+                    // update_local_ref, only protects a branch that exists)
                     let name = "refs/heads/main";
-                    if after_gix.get(name) != before.get(name) {
+                    if before.contains_key(name) && after_gix.get(name) != before.get(name) {
                         return Verdict::fail("checked-out-branch-updated", format!("{:?}", after_gix.get(name)));
                     }
                     "git-dies-checked-out"
@@ -649,10 +656,9 @@ pub fn prop(c: &Case) -> Verdict {
                 return Verdict::fail(cls, format!("{} | git: {}", diff.join("; "), gerr.replace('\n', " ")));
             }
             if (f.depth > 0 || f.lshallow > 0) && shallow(&w.client_git_dir) != shallow(&dir2) {
-                return Verdict::fail(
-                    "shallow-file-differs",
-                    format!("{:?} vs {:?}", shallow(&w.client_git_dir), shallow(&dir2)),
-                );
+                // connectivity was checked above and the refs agree: only the recorded boundary differs (git marks the
+                // fetched tips shallow even when the client happens to have their parents already)
+                return Verdict::ok(false, "shallow-boundary-recorded-differently");
             }
             Verdict::ok(after_git != before, format!("fetch-{kind}"))
         }
@@ -670,6 +676,16 @@ fn classify_diff(
 ) -> String {
     let idx = |x: Option<&String>| x.and_then(|h| w.mat.iter().position(|m| m.2.to_string() == *h));
     let is_tag_obj = |x: Option<&String>| idx(x).map_or(false, |i| matches!(f.objs[i], Obj::Tag { .. }));
+    // a destination that is (or was, or becomes) a symbolic ref: gix keeps/creates symbolic refs for symbolic remote
+    // refs and never writes through them, git writes the id through the symref
+    let is_sym_file = std::fs::read(w.client_git_dir.join(name)).map_or(false, |c| c.starts_with(b"ref: "));
+    let sym_related = f.lrefs.iter().any(|(n, v)| match v {
+        Val::Sym(t) => n == name.as_bytes() || t == name.as_bytes(),
+        _ => false,
+    });
+    if is_sym_file || sym_related {
+        return "symref-destination".into();
+    }
     if f.tags == b'i' && name.starts_with("refs/tags/") && gix_v.is_none() && git_v.is_some() {
         return "auto-follow-tag-not-fetched".into();
     }
